@@ -418,7 +418,11 @@ func buildReal(c *Case) (rp *realProg, defPanic string) {
 		case "argcomp":
 			g.ArgCompletions(op.L...)
 		case "argfn":
-			g.ArgCompletionsFns(argFnFixed(op.N))
+			fns := []getoptions.ArgCompletionsFn{argFnFixed(op.N)}
+			for _, n := range op.InitIS {
+				fns = append(fns, argFnFixed(n))
+			}
+			g.ArgCompletionsFns(fns...)
 		case "probe":
 			switch op.N {
 			case 0:
